@@ -687,6 +687,10 @@ class System:
                 if obj:
                     if (not ids) and as_proxy and (key in obj.refs):
                         obj = obj._get_object(key, as_proxy=as_proxy)
+                    elif key in getattr(obj._impl, "named_spaces", ()):
+                        # A model-level reference of the same name hides
+                        # the child space from attribute access
+                        obj = obj._impl.named_spaces[key].interface
                     else:
                         obj = getattr(obj, key)
                 else:
